@@ -675,6 +675,25 @@ def check_notation(scoping, left, right, third, tally: Tally, case: dict):
          lambda: scoping.namespaceids_t(dotted) == scoping.namespaceids_t(coloned)
          == scoping.namespaceids_t(list(left)))
 
+    # a value handed out for a string (or computed from a tree) belongs to the caller: extending
+    # it in place with += must not change what the same conversion hands out next time
+    def extended_then_again(step, thunk):
+        def run():
+            first = thunk()
+            first += make(right or ['Zz'])
+            return thunk()
+        tally.count('conversions_repeated_after_in_place_extension')
+        trip(step, left, run)
+    if left:
+        extended_then_again('namespaceids_t(dotted) after += on the earlier result',
+                            lambda: scoping.namespaceids_t(dotted))
+        extended_then_again('namespaceids_t(::) after += on the earlier result',
+                            lambda: scoping.namespaceids_t(coloned))
+        extended_then_again('ns_ids_t(dotted) after += on the earlier result',
+                            lambda: scoping.ns_ids_t(dotted))
+        extended_then_again('namespaceids_t(list) after += on the earlier result',
+                            lambda: scoping.namespaceids_t(list(left)))
+
     def concat(step, expected, thunk, inputs):
         tally.count('concatenations')
         tally.doing = ('concat', {'step': step, 'ids': [left, right, third]}, case)
@@ -726,6 +745,13 @@ def check_notation(scoping, left, right, third, tally: Tally, case: dict):
         for level, inner in enumerate(nodes):
             concat(f'NamespaceTree.fqn of ancestor, depth {depth}', flat(parts[:level]),
                    lambda n=inner: n.fqn, pairs)
+
+        def fqn_after_extension(n=node):
+            got = n.fqn
+            got += make(['Zz'])
+            return n.fqn
+        concat(f'NamespaceTree.fqn after += on the earlier result, depth {depth}', flat(parts),
+               fqn_after_extension, pairs)
 
 
 def eval_notation(case: dict, tally: 'Tally') -> dict:
